@@ -81,6 +81,7 @@ class Sock:
         self.tls: list[dict[str, typing.Any]] = []  # one entry per TLS layer
         self.sent: list[tuple[int, bytes]] = []  # (tls depth when written, data)
         self.eof_seen = False
+        self.broken = False  # a write failed: the connection is gone for good
 
     def pump(self) -> None:
         p = self.peer
@@ -258,7 +259,15 @@ class Net:
                 assert sock.peer is not None
                 call_native(sock.peer.receive, half)
                 sock.pump()
+            # A write error is not transient (reset / broken pipe): every later
+            # write fails too, what the peer had already sent can still be
+            # read, then the stream is at EOF - and it polls readable.
+            sock.broken = True
+            sock.peer_closed = True
             raise httpcore.WriteError("injected")
+        if sock.broken:
+            e["fault"] = "broken"
+            raise httpcore.WriteError("write on a broken stream")
         if not sock.open:
             e["fault"] = "closed"
             raise httpcore.WriteError("write on closed stream")
